@@ -58,7 +58,12 @@ func (s *service) Create(ctx context.Context, record kvs.Record) (string, error)
 		return "", ctx.Err()
 	}
 	if r, ok := s.recs[record.Key]; ok {
-		return r.Version, errors.ErrExist
+		if !expired(r) {
+			return r.Version, errors.ErrExist
+		}
+		// the expired record is the same as a deleted one
+		delete(s.recs, record.Key)
+		s.notifyWaiters(record.Key)
 	}
 	record.Version = ulidutils.NewID()
 	s.recs[record.Key] = record
@@ -151,11 +156,15 @@ func (s *service) Delete(ctx context.Context, key string) error {
 	s.lock.Lock()
 	defer s.lock.Unlock()
 
-	if _, ok := s.recs[key]; !ok {
+	r, ok := s.recs[key]
+	if !ok {
 		return errors.ErrNotExist
 	}
 	delete(s.recs, key)
 	s.notifyWaiters(key)
+	if expired(r) {
+		return errors.ErrNotExist
+	}
 	return nil
 }
 
@@ -163,7 +172,7 @@ func (s *service) WaitForVersionChange(ctx context.Context, key, ver string) err
 	for {
 		s.lock.Lock()
 		r, ok := s.recs[key]
-		if !ok {
+		if !ok || expired(r) {
 			s.lock.Unlock()
 			return errors.ErrNotExist
 		}
@@ -179,8 +188,30 @@ func (s *service) WaitForVersionChange(ctx context.Context, key, ver string) err
 		ws.waiters++
 		s.lock.Unlock()
 
+		// the record expiration ends the waiting as its deletion does
+		var expCh <-chan time.Time
+		var tmr *time.Timer
+		if r.ExpiresAt != nil {
+			tmr = time.NewTimer(time.Until(*r.ExpiresAt) + time.Nanosecond)
+			expCh = tmr.C
+		}
+
 		select {
+		case <-expCh:
+			s.lock.Lock()
+			if ws1, ok := s.verChange[key]; ok && ws.done == ws1.done {
+				ws.waiters--
+				if ws.waiters == 0 {
+					close(ws.done)
+					delete(s.verChange, key)
+				}
+			}
+			s.lock.Unlock()
+			// go around and check the record
 		case <-ctx.Done():
+			if tmr != nil {
+				tmr.Stop()
+			}
 			s.lock.Lock()
 			defer s.lock.Unlock()
 			ws1, ok := s.verChange[key]
@@ -195,6 +226,9 @@ func (s *service) WaitForVersionChange(ctx context.Context, key, ver string) err
 			return ctx.Err()
 		case <-ws.done:
 			// need to check the version, go around
+			if tmr != nil {
+				tmr.Stop()
+			}
 		}
 	}
 }
@@ -208,12 +242,17 @@ func (s *service) ListKeys(ctx context.Context, pattern string) (iterable.Iterat
 		return nil, fmt.Errorf("could not compile the patter %q: %w", pattern, err)
 	}
 	res := []string{}
-	for k := range s.recs {
-		if g.Match(k) {
+	for k, r := range s.recs {
+		if g.Match(k) && !expired(r) {
 			res = append(res, k)
 		}
 	}
 	return &keysIterator{res: res}, nil
+}
+
+// expired returns true if the record has the expiration time, and it is passed
+func expired(r kvs.Record) bool {
+	return r.ExpiresAt != nil && r.ExpiresAt.Before(time.Now())
 }
 
 func (s *service) notifyWaiters(key string) {
